@@ -65,7 +65,19 @@ def make_mf(counter=None, where="field", species=1):
     return oqupy.MeanFieldTempo(mfs, [_bath] * species, _par, [_rho] * species, 0.3 + 0j, 0.0)
 
 
-def make_tebd(start_mps=None, start_step=0, start_time=0.0, chain_control=None):
+_LOSSY_PT = {}
+
+
+def lossy_pt(nsteps):
+    """a PT-TEMPO process tensor computed with a coarse tolerance: the total trace of a chain carrying it drifts away from one"""
+    if nsteps not in _LOSSY_PT:
+        corr = oqupy.PowerLawSD(alpha=0.3, zeta=1, cutoff=3.0, cutoff_type="exponential", temperature=0.2)
+        _LOSSY_PT[nsteps] = quiet(oqupy.pt_tempo_compute, oqupy.Bath(0.5 * oqupy.operators.sigma("x"), corr), 0.0, nsteps * DT,
+                                  parameters=oqupy.TempoParameters(dt=DT, epsrel=3e-3, dkmax=3), progress_type="silent")
+    return _LOSSY_PT[nsteps]
+
+
+def make_tebd(start_mps=None, start_step=0, start_time=0.0, chain_control=None, lossy=None):
     n = 3
     sx, sz = 0.5 * oqupy.operators.sigma("x"), 0.5 * oqupy.operators.sigma("z")
     chain = oqupy.SystemChain([2] * n)
@@ -75,7 +87,9 @@ def make_tebd(start_mps=None, start_step=0, start_time=0.0, chain_control=None):
         chain.add_nn_hamiltonian(site=i, hamiltonian_l=0.8 * sx, hamiltonian_r=sx)
     par = oqupy.PtTebdParameters(dt=DT, order=2, epsrel=1e-9)
     mps = start_mps if start_mps is not None else oqupy.AugmentedMPS([oqupy.operators.spin_dm("z+"), oqupy.operators.spin_dm("x+"), oqupy.operators.spin_dm("z-")])
-    return oqupy.PtTebd(initial_augmented_mps=mps, system_chain=chain, process_tensors=[None] * n, parameters=par,
+    if lossy:
+        par = oqupy.PtTebdParameters(dt=DT, order=2, epsrel=1e-3)
+    return oqupy.PtTebd(initial_augmented_mps=mps, system_chain=chain, process_tensors=[lossy_pt(lossy)] + [None] * (n - 1) if lossy else [None] * n, parameters=par,
                         start_time=start_time, start_step=start_step, dynamics_sites=[0, 1, (1, 2)], chain_control=chain_control)
 
 
@@ -221,18 +235,22 @@ def run(chk):
         if k + 2 <= T:
             cc.add_single_site_control(sxm, 2, k + 2, False)
         return cc
-    for k, T, wc in ([(1, 3, False), (2, 4, True), (0, 2, False), (3, 3, False), (1, 4, True), (0, 3, True)] if thorough else [(1, 3, False), (2, 4, True), (1, 4, True)]):
-        full = make_tebd(chain_control=mk_cc(wc, k, T))
+    for ci, (k, T, wc) in enumerate([(1, 3, False), (2, 4, True), (0, 2, False), (3, 3, False), (1, 4, True), (0, 3, True)] if thorough else [(1, 3, False), (2, 4, True), (1, 4, True)]):
+        # every second case: a lossy process tensor and a coarse chain tolerance (the total trace drifts: the exported state
+        # must be handed over as it is)
+        lossy = T if ci % 2 == 1 else None
+        full = make_tebd(chain_control=mk_cc(wc, k, T), lossy=lossy)
         quiet(full.compute, T, progress_type="silent")
         rf = full.get_results()
-        a = make_tebd(chain_control=mk_cc(wc, k, T))
+        a = make_tebd(chain_control=mk_cc(wc, k, T), lossy=lossy)
         quiet(a.compute, k, progress_type="silent")
-        b = make_tebd(start_mps=a.get_augmented_mps(), start_step=k, start_time=a.time(k), chain_control=mk_cc(wc, k, T))
+        b = make_tebd(start_mps=a.get_augmented_mps(), start_step=k, start_time=a.time(k), chain_control=mk_cc(wc, k, T), lossy=lossy)
         quiet(b.compute, T, progress_type="silent")
         rb = b.get_results()
         chk.search_cases += 1
-        info = {"driver": "tebd-restart", "k": k, "T": T, "chain_controls_after_restart": wc}
-        ok = np.allclose(rb["time"], rf["time"][k:], rtol=0, atol=1e-12)
+        info = {"driver": "tebd-restart", "k": k, "T": T, "chain_controls_after_restart": wc, "lossy_process_tensor": bool(lossy),
+                "norm_at_restart": float(np.real(rf["norm"][k]))}
+        ok = np.allclose(rb["time"], rf["time"][k:], rtol=0, atol=1e-12) and np.allclose(rb["norm"], np.array(rf["norm"])[k:], rtol=0, atol=TOL)
         for s in rf["dynamics"]:
             ok = ok and np.allclose(np.array(rb["dynamics"][s].states), np.array(rf["dynamics"][s].states)[k:], rtol=0, atol=TOL)
         if not ok:
